@@ -69,6 +69,7 @@ type l1world struct {
 	ops         *tw
 	nops        int
 	lastDeleted int
+	emptied     map[int]bool
 }
 
 func (w *l1world) cfg() kv.Config {
@@ -361,13 +362,18 @@ func (w *l1world) exec(op *kop, hstats map[string]int) (known string, ok bool) {
 		o.i(op.h2)
 		if err == nil {
 			w.hs[op.h2] = ndb
+			w.emptied[op.h2] = w.emptied[op.h]
 			ok = true
 		}
 	case "rmtomb":
 		o.s("rmtomb")
 		o.i(op.h)
 		o.z(op.before)
+		before := db.Size()
 		err := db.RemoveTombstones(ctx, time.Unix(0, op.before))
+		if db.Size() < before {
+			w.emptied[op.h] = true
+		}
 		out.s(";")
 		okerr(out, err)
 		hstats["rmtomb"]++
@@ -499,7 +505,7 @@ func (w *l1world) exec(op *kop, hstats map[string]int) (known string, ok bool) {
 }
 
 func newL1World(mode string, bf int) *l1world {
-	return &l1world{mode: mode, bf: bf, s3: newFakeS3(), nm: newNamer("#"), nn: newNamer("%"), hs: map[int]*kv.DB{}, in: &tw{}, out: &tw{}, ops: &tw{}}
+	return &l1world{mode: mode, bf: bf, s3: newFakeS3(), nm: newNamer("#"), nn: newNamer("%"), hs: map[int]*kv.DB{}, in: &tw{}, out: &tw{}, ops: &tw{}, emptied: map[int]bool{}}
 }
 
 func (w *l1world) finish() (string, string) {
@@ -599,7 +605,7 @@ func runL1History(g *gen, mode string, nops int, hstats map[string]int) (string,
 		if op.kind == "diff" {
 			// mast's diff fails on a tree emptied in memory (RemoveTombstones); not modelled
 			a, b := w.hs[op.h], w.hs[op.h2]
-			if a == nil || b == nil || (a.Size() == 0 && a.IsDirty()) || (b.Size() == 0 && b.IsDirty()) {
+			if a == nil || b == nil || (a.Size() == 0 && w.emptied[op.h]) || (b.Size() == 0 && w.emptied[op.h2]) {
 				op.kind, op.h2 = "dump", 0
 			}
 		}
